@@ -13,9 +13,10 @@ The source tree is a dict  relpath -> {"type": "file"|"dir"|"link", "content": s
 relative to the helper's working directory `cwd`; operands are relative to it (or absolute below it).
 
 model(...) returns
-    {"verdict": "ok" | "reject" | "fail" | "unspecified", "why": str, "rule": str,
+    {"verdict": "ok" | "either" | "reject" | "fail" | "unspecified", "why": str, "rule": str,
      "entries": {image relpath: spec}, "parents": [image relpaths that must be directories afterwards]}
   ok       the request is valid; afterwards the image must equal pre-state + entries (+ parents)
+  either   the helper may refuse; if it reports success the image must equal pre-state + entries (+ parents)
   reject   PMS forbids the request (the helper must fail)
   fail     the request cannot succeed (missing source file)
 spec: {"type": "file", "src": source relpath, "mode": int|None, "uid": int|None, "gid": int|None, "mtime_src": bool}
@@ -129,6 +130,8 @@ def parse_install_opts(s):
         for key, short, long in (("uid", "-o", "--owner"), ("gid", "-g", "--group")):
             v = val(t, short, long)
             if v is not False:
+                if v == "root":
+                    v = "0"
                 if v is None or not v.isdigit():
                     o["known"] = False
                 else:
@@ -209,7 +212,9 @@ def _parents(paths):
 
 
 def _finish(entries, pre, why="", rule="ok"):
-    """Collisions with the pre-state where PMS gives no answer -> unspecified."""
+    """Collisions with the pre-state where PMS gives no answer -> unspecified, or "either": the helper may refuse the
+    request, but if it reports success the image has to be pre-state + entries."""
+    either = False
     for p, s in entries.items():
         old = pre.get(p)
         if old is None:
@@ -219,6 +224,11 @@ def _finish(entries, pre, why="", rule="ok"):
             continue
         if s["type"] == "link" and "target" in s and old["type"] in ("link", "file") and not s.get("src_dirlink"):
             continue  # a symlink copied by doins replaces the symlink / regular file that is there
+        if s["type"] == "link" and "target" in s and old["type"] in ("link", "file") and s.get("src_dirlink"):
+            # a symlink to a directory found while recursing, over an existing non-directory: replacing it is what
+            # install(1)-like semantics suggest, refusing is tolerated; claiming success and leaving the old entry is not
+            either = True
+            continue
         if s["type"] in ("dir", "keepdir") and old["type"] == "dir":
             continue
         return _res("unspecified", "destination %r collides with an existing %s" % (p, old["type"]), "collision")
@@ -229,7 +239,7 @@ def _finish(entries, pre, why="", rule="ok"):
             return _res("unspecified", "parent %r exists and is not a directory" % p, "collision")
         if p in entries and entries[p]["type"] not in ("dir", "keepdir"):
             return _res("unspecified", "request installs both %r and something below it" % p, "collision")
-    out = _res("ok", why, rule, entries, sorted(parents - set(entries)))
+    out = _res("either" if either else "ok", why, rule, entries, sorted(parents - set(entries)))
     # destinations that currently hold a symlink (dangling or not): replaced, never written through
     out["replaces_links"] = sorted(p for p in entries if pre.get(p, {}).get("type") == "link")
     # destinations that hold a regular file: replaced by a new inode (other hard links of the old one keep theirs)
@@ -454,7 +464,7 @@ def model(req, tree, cwd, pre, P, quirks=(), umask=0o022):
         return _res("unspecified", str(u), "collision")
     # the destination directory itself must exist afterwards
     out = _finish(entries, pre, rule=rule)
-    if out["verdict"] == "ok":
+    if out["verdict"] in ("ok", "either"):
         ps = set(out["parents"]) | _parents([dest + "/x"])
         ps.discard("")
         for p in ps:
